@@ -6,7 +6,7 @@ import re
 from hypothesis import strategies as st
 
 from vlib.core import SubCheck, Violation, Outcome
-from vlib import cli, catalog, names
+from vlib import argv_gen, cli, catalog, names
 from vlib import graphs_gen as gg
 
 PROPERTY = "C17"
@@ -15,6 +15,10 @@ ASSUMPTIONS = [
     "'--seed s' is equivalent to random.seed(s) right before the library call (used for -T shuffle, pitfall, randkcnf, randkxor)",
     "sub-commands that draw their own graph (php M N D, tseitin N d, op N d, subsetcard N d, stone --sparse d, tseitin random*) are checked by recovering the drawn graph / charges from the variable names and clauses of the output and comparing with the library formula on that graph",
 ]
+
+
+# seeds that are not exactly representable as a double, negative, zero
+BIG_SEEDS = [2 ** 53 + 1, 2 ** 64 + 12345, 1718000000123456789, 9007199254740993, -7, 0]
 
 
 def same_formula(A, B, what):
@@ -126,7 +130,7 @@ def run_equal(case):
             else:
                 targs += ['-T'] + t
             cur = apply_t(cur, t, Bcase)
-        args = ['--seed', str(seed)] + case.get('outopts', []) + [f.name] + [str(x) for x in f.argv(p, ctx)] + targs
+        args = argv_gen.seed_tokens(seed, case.get('seedform', 0)) + case.get('outopts', []) + [f.name] + [str(x) for x in f.argv(p, ctx)] + targs
         try:
             Fcli = cli.build(tool, args)
         except CLIError as e:
@@ -139,14 +143,14 @@ def run_equal(case):
             got = [k for k in Fcli.header if k.startswith('transformation ')]
             if got != ['transformation {}'.format(i) for i in range(1, nt + 1)]:
                 raise Violation("{} {}: header transformation entries {} for a chain of {} steps".format(tool, ' '.join(args), got, nt))
-    labels = [tool, f.name] + [a for a in args if a.startswith('--') and a != '--seed']
+    labels = [tool, f.name] + [a for a in args if a.startswith('--') and not a.startswith('--see')]
     if len(chain) >= 2:
         labels.append('chain>=2')
     for t in chain:
         labels.append('T:' + t[0])
     if f.name == 'iso' and p.get('G2'):
         labels.append('second-graph')
-    return Outcome(labels=labels, nontrivial=len(chain) >= 1 or any(a.startswith('--') for a in args[2:]))
+    return Outcome(labels=labels, nontrivial=len(chain) >= 1 or any(a.startswith('--') and not a.startswith('--see') for a in args[1:]))
 
 
 @st.composite
@@ -154,7 +158,9 @@ def strat_equal(draw):
     inv = draw(catalog.invocations(deterministic_only=True))
     inv['tool'] = draw(st.sampled_from(['cnfgen', 'cnfgen', 'pbgen']))
     inv['chain'] = draw(t_strategy())
-    inv['seed'] = draw(st.integers(0, 1000))
+    inv['seed'] = draw(st.integers(0, 1000) | st.sampled_from(BIG_SEEDS))
+    inv['seedform'] = draw(st.integers(0, 9)) % (2 * argv_gen.SEED_FORMS)
+    inv['seedform'] = inv['seedform'] if inv['seedform'] < argv_gen.SEED_FORMS else 0
     inv['outopts'] = draw(st.sampled_from([[], ['-q'], ['-v'], ['--varnames'], ['-of', 'opb'], ['-of', 'latex']]))
     if inv['tool'] == 'pbgen' and inv['outopts'] == ['-of', 'dimacs']:
         inv['outopts'] = []
@@ -224,7 +230,7 @@ def run_seeded(case):
     except ValueError:
         Flib = None
     try:
-        Fcli = cli.build(tool, ['--seed', str(seed), name] + [str(x) for x in a])
+        Fcli = cli.build(tool, argv_gen.seed_tokens(seed, case.get('seedform', 0)) + [name] + [str(x) for x in a])
     except CLIError:
         Fcli = None
     if Flib is None or Fcli is None:
@@ -244,7 +250,8 @@ def strat_seeded(draw):
     else:
         k, n = draw(st.integers(1, 3)), draw(st.integers(3, 8))
         a = [k, n, draw(st.integers(0, 5))]
-    return {'tool': draw(st.sampled_from(['cnfgen', 'pbgen'])), 'name': name, 'args': a, 'seed': draw(st.integers(0, 10 ** 6))}
+    return {'tool': draw(st.sampled_from(['cnfgen', 'pbgen'])), 'name': name, 'args': a, 'seed': draw(st.integers(0, 10 ** 6) | st.sampled_from(BIG_SEEDS)),
+            'seedform': draw(st.integers(0, argv_gen.SEED_FORMS - 1))}
 
 
 # ---------------------------------------------------------------------------
